@@ -97,6 +97,7 @@ package csi
 //@   modifies buf[:], object(r).err
 //@   ensures 0 <= n && n <= len(buf)
 //@   ensures err == nil <==> n == len(buf)
+//@   ensures (n == 0 && len(buf) > 0) <==> err == io.EOF
 
 //@ func makeOffset
 //@   inline
